@@ -302,9 +302,10 @@ def r_calls(cg, P, rep, tier):
                 ok = len(s.stack) == 0 and dd == depth0
                 rep.ob('R20.5', key, ok, 'after the call %d pushed slot(s) are still on the stack and `depth` is %r (was %d): each evaluation of this call leaks stack' % (len(s.stack), dd, depth0), where=where, facts={'trace': tr.text()[-12:]})
                 want87 = 1 if ret == 'ldouble' else 0
-                n87 = len([x for x in s.st])
-                # x87: a long double result is left in st0 by the callee (the machine does not model it), arguments must have been popped
-                rep.ob('R20.5', key + ':x87', n87 == 0, 'after the call %d long double argument value(s) are still on the x87 stack' % n87, where=where)
+                # x87: a long double result is left in st0 by the callee (('retst', n) in the machine); every argument must have been popped
+                left = [x for x in s.st if not (isinstance(x, tuple) and x[0] == 'retst')]
+                nres = len(s.st) - len(left)
+                rep.ob('R20.5', key + ':x87', not left and nres == want87, 'after the call %d long double argument value(s) are still on the x87 stack and %d result value(s) (expected %d)' % (len(left), nres, want87), where=where)
 
 
 def expr_kinds_handled(cg, fname='gen_expr'):
